@@ -133,7 +133,7 @@ def run(ctx):
       return 'allow'
     if t in ('denylist',):
       return 'deny'
-    if isinstance(e, ast.Compare) and len(e.ops) == 1 and isinstance(e.ops[0], ast.In) and u(e.left) == 'k':
+    if isinstance(e, ast.Compare) and len(e.ops) == 1 and isinstance(e.ops[0], ast.In) and u(e.left) in keyvars:
       if u(e.comparators[0]) == 'allowlist':
         return 'in_allow'
       if u(e.comparators[0]) == 'denylist':
@@ -142,11 +142,19 @@ def run(ctx):
       return 'repr'
     return None
 
+  # the name(s) under which this function holds the parameter name of the entry being judged
+  keyvars = {'k'}
+  for n_ in walk_local(df.node):
+    tg_ = n_.target if isinstance(n_, (ast.For, ast.comprehension)) else None
+    if isinstance(tg_, ast.Tuple) and tg_.elts and isinstance(tg_.elts[0], ast.Name):
+      keyvars.add(tg_.elts[0].id)
+    elif isinstance(tg_, ast.Name):
+      keyvars.add(tg_.id)
   spec = '(allow and not in_allow) or (deny and in_deny) or (not repr)'
   dels = [n for n in g2.live_nodes() if n.kind == 'stmt' and isinstance(n.ast, ast.Delete)]
   retvars = {r.value.id for r in returns_of(df) if isinstance(r.value, ast.Name)}
   keeps = [n for n in g2.live_nodes() if n.kind == 'stmt' and isinstance(n.ast, ast.Assign) and isinstance(n.ast.targets[0], ast.Subscript)
-           and u(n.ast.targets[0].value) in retvars and u(n.ast.targets[0].slice) == 'k']
+           and u(n.ast.targets[0].value) in retvars and u(n.ast.targets[0].slice) in keyvars]
   comps = [r.value for r in returns_of(df) if isinstance(r.value, ast.DictComp)] + \
           [a.value for a in walk_local(df.node) if isinstance(a, ast.Assign) and u(a.targets[0]) in retvars and isinstance(a.value, ast.DictComp)]
   ok = False
@@ -189,7 +197,7 @@ def run(ctx):
     cond = ' and '.join('(%s)' % u(i) for i in c.generators[0].ifs) or 'True'
     m1 = facts_imply({('c', cond, True)}, [('kept only if', 'not (%s)' % spec)], atom)
     conv = facts_imply({('c', cond, False)}, [('dropped only if', spec)], atom)
-    ok = not m1 and not conv and u(c.key) == 'k'
+    ok = not m1 and not conv and u(c.key) in keyvars
     detail = 'counter-example over guard atoms: %s' % ((m1 or conv)[0][1] if (m1 or conv) else '')
   ctx.check(ok, 'C07.defaults', construct(df),
             'a signature default is dropped iff it is outside a non-empty allowlist, inside the denylist, or not literally representable',
